@@ -24,10 +24,19 @@ def strip_ts(view):
     return view
 
 
-def py_value(kind, x):
+def py_value(kind, x, keep=None, key=None):
     from indi.device import values
     if kind == "BLOB" and x is not None:
-        return values.BLOB(bytes(x[0]), x[1])
+        if keep is not None and key in keep and len(x[0]) % 2 == 1:
+            # a frame buffer object that is filled again and published again (handler-free devices only:
+            # an object compared with itself raises no Change event)
+            b = keep[key]
+            b.binary, b.format = bytes(x[0]), x[1]
+            return b
+        b = values.BLOB(bytes(x[0]), x[1])
+        if keep is not None:
+            keep[key] = b
+        return b
     return x
 
 
@@ -155,7 +164,7 @@ def snapshot(drv, kinds_of):
     return out
 
 
-def apply_op(drv, kinds_of, op):
+def apply_op(drv, kinds_of, op, keep=None):
     from indi.message import IndiMessage
     vec = drv._vectors.get(op[1]) if op[0] != "client" and op[0] != "engrp" else None
     if op[0] == "assign":
@@ -163,9 +172,9 @@ def apply_op(drv, kinds_of, op):
         if kinds_of[op[1]] == "Switch" and op[3] in (True, False):
             el.bool_value = op[3]
         else:
-            el.value = py_value(kinds_of[op[1]], op[3])
+            el.value = py_value(kinds_of[op[1]], op[3], keep, (id(drv), op[1], op[2]))
     elif op[0] == "setvalue":
-        list(vec._elements.values())[op[2]].set_value(py_value(kinds_of[op[1]], op[3]))
+        list(vec._elements.values())[op[2]].set_value(py_value(kinds_of[op[1]], op[3], keep, (id(drv), op[1], op[2])))
     elif op[0] == "selected":
         names = [list(vec._elements.values())[i].name for i in op[2]]
         vec.selected_values = names
